@@ -675,6 +675,15 @@ class WrapperModel(Model):
                 st.emit('STATSET', (obj, idx, val), line)
             return [R(st, NONE)]
         if is_bk(obj, 'counter'):
+            # n[k] = n[k] - 1 (possibly through a local: c = n[k] - 1; n[k] = c) is n[k] -= 1
+            if val[0] == 'bin' and val[1] in ('+', '-') and len(val) > 3 and val[2][0] == 'ev' and val[2][1] == 'bkget':
+                g = [e for e in st.events if e.kind == 'BKGET' and e.val == val[2]]
+                later = [e for e in st.events if e.kind == 'BK' and e.args[0] == obj and g and st.events.index(e) > st.events.index(g[0])]
+                if g and g[0].args[0] == obj and g[0].args[1] == idx and not later:
+                    st.emit('BK', (obj, C('inc' if val[1] == '+' else 'dec'), idx, val[3]), line, extra={'newval': val})
+                    if val[1] == '+':
+                        st.facts.setdefault('nonempty', set()).add(obj)
+                    return [R(st, NONE)]
             st.emit('BK', (obj, C('set'), idx, val), line)
             st.facts.setdefault('nonempty', set()).add(obj)
             return [R(st, NONE)]
